@@ -3,6 +3,7 @@
 # Confirms, in a scratch copy of /repo: the demo passes without the patch; with the patch the
 # package compiles, the pinned suite passes (demo absent) and the demo fails.
 set -u
+mkdir -p /root/scratch
 D="$(readlink -f "$1")"
 export GOFLAGS=-mod=mod GOPROXY=off GOSUMDB=off GOTOOLCHAIN=local
 S=$(mktemp -d /root/scratch/confirm.XXXXXX); trap 'rm -rf "$S"' EXIT
